@@ -597,6 +597,9 @@ func concretizeExporter(sc expScenario, conc *Conc) expPlan {
 		switch o.K {
 		case "host":
 			e.host = &hostO
+		case "defhost":
+			h := defaultHostPort(isHTTP(sc.comp))
+			e.host = &h
 		case "path":
 			p := o.V
 			e.path = &p
@@ -611,10 +614,10 @@ func concretizeExporter(sc expScenario, conc *Conc) expPlan {
 			e.url = &u
 		}
 		pl.opt["endpoint"] = e
-		if v, ok := conc.envURL(sc.endpoint[1], addr["S"]); ok {
+		if v, ok := conc.envURL(sc.endpoint[1], addr["S"], isHTTP(sc.comp)); ok {
 			setenv("endpoint", "OTEL_EXPORTER_OTLP_"+sig+"_ENDPOINT", v)
 		}
-		if v, ok := conc.envURL(sc.endpoint[2], addr["G"]); ok {
+		if v, ok := conc.envURL(sc.endpoint[2], addr["G"], isHTTP(sc.comp)); ok {
 			setenv("endpoint", "OTEL_EXPORTER_OTLP_ENDPOINT", v)
 		}
 	}
